@@ -13,6 +13,7 @@ import (
 	dtpb "github.com/google/fhir/go/proto/google/fhir/proto/r4/core/datatypes_go_proto"
 	"google.golang.org/protobuf/types/known/anypb"
 	"github.com/verily-src/fhirpath-go/fhirpath"
+	"github.com/verily-src/fhirpath-go/fhirpath/evalopts"
 	"github.com/verily-src/fhirpath-go/fhirpath/system"
 	"github.com/verily-src/fhirpath-go/fhirpath/verifharness/core"
 	"github.com/verily-src/fhirpath-go/fhirpath/verifharness/fx"
@@ -36,13 +37,13 @@ func init() {
 			"collections whose items have different types are only navigated by names valid on every item type",
 		},
 		Run:    runC02,
-		Checks: map[string]func(*core.Env, []json.RawMessage){"resource": replayC02, "mixed": replayC02Mixed},
+		Checks: map[string]func(*core.Env, []json.RawMessage){"resource": replayC02, "mixed": replayC02Mixed, "codes": replayC02Codes},
 		Threshold: func(m *core.Merged) []string {
 			var r []string
 			if m.Cover["types"] < 146 {
 				r = append(r, fmt.Sprintf("only %d resource-type instances walked", m.Cover["types"]))
 			}
-			for _, k := range []string{"path-compared", "indexed-compared", "filtered-compared", "value-of-temporal", "mixed-type-container", "mixed-type-step", "invalid-name", "absent-name", "wrong-root", "choice-step", "contained-step", "typed-reference", "primitive-value", "temporal-value"} {
+			for _, k := range []string{"path-compared", "indexed-compared", "filtered-compared", "value-of-temporal", "mixed-type-container", "mixed-type-step", "code-value", "invalid-name", "absent-name", "wrong-root", "choice-step", "contained-step", "typed-reference", "primitive-value", "temporal-value"} {
 				if m.Cover[k] == 0 {
 					r = append(r, "never observed: "+k)
 				}
@@ -64,6 +65,13 @@ func runC02(env *core.Env) {
 			}
 			rich := k%2 == 1
 			c02Resource(env, string(md.Name()), env.Seed*1000+uint64(k), rich)
+		}
+	}
+	// every value of every bound code element, in one process, in both orders
+	for _, rev := range []bool{false, true} {
+		n++
+		if env.Mine(n) {
+			c02Codes(env, rev)
 		}
 	}
 	// Bundles / contained lists mixing resource types that share a backbone element name
@@ -163,6 +171,89 @@ func c02Resource(env *core.Env, tn string, seed uint64, rich bool) {
 	c02Walk(env, tn, res, seed, 400)
 }
 
+// codeWrappers enumerates every value-set bound code message (enum valued) reachable from the resource types.
+func codeWrappers() []protoreflect.MessageDescriptor {
+	seen := map[protoreflect.FullName]bool{}
+	var out []protoreflect.MessageDescriptor
+	var walk func(md protoreflect.MessageDescriptor)
+	walk = func(md protoreflect.MessageDescriptor) {
+		if md == nil || seen[md.FullName()] || gen.IsAny(md) {
+			return
+		}
+		seen[md.FullName()] = true
+		if gen.IsCodeWrapper(md) {
+			if vf := md.Fields().ByName("value"); vf != nil && vf.Kind() == protoreflect.EnumKind {
+				out = append(out, md)
+			}
+			return
+		}
+		fs := md.Fields()
+		for i := 0; i < fs.Len(); i++ {
+			walk(fs.Get(i).Message())
+		}
+	}
+	for _, md := range gen.ResourceTypes() {
+		walk(md)
+	}
+	sort.Slice(out, func(i, j int) bool { return out[i].FullName() < out[j].FullName() })
+	return out
+}
+
+// c02Codes: every value of every bound code element, all in one process and in two orders, must read as its
+// FHIR code (fhir_original_code annotation, else the lower-kebab enum name) - also when another value set has a
+// constant of the same name or number.
+func c02Codes(env *core.Env, reverse bool) {
+	defer env.In("codes", reverse)()
+	ws := codeWrappers()
+	if reverse {
+		for i, j := 0, len(ws)-1; i < j; i, j = i+1, j-1 {
+			ws[i], ws[j] = ws[j], ws[i]
+		}
+	}
+	exStr, _ := fx.Compile(env, "%x.toString()")
+	exEq, _ := fx.Compile(env, "%x = %c")
+	if exStr == nil || exEq == nil {
+		env.Skip("code-probe-does-not-compile")
+		return
+	}
+	for _, md := range ws {
+		vf := md.Fields().ByName("value")
+		vals := vf.Enum().Values()
+		for i := 0; i < vals.Len(); i++ {
+			ev := vals.Get(i)
+			if ev.Number() == 0 {
+				continue
+			}
+			want := gen.OriginalCode(ev)
+			m := gen.NewMessage(md)
+			m.Set(vf, protoreflect.ValueOfEnum(ev.Number()))
+			env.Case()
+			env.Cover("code-value")
+			r := fx.Evaluate(env, exStr, nil, evalopts.EnvVariable("x", m.Interface()))
+			d := fmt.Sprintf("%s value %s", md.FullName(), ev.Name())
+			if r.IsPanic() {
+				env.Violatef(fx.PanicSig("C02", r), "%s: toString() => %s", d, r.Short())
+				continue
+			}
+			if it, ok := r.Single(); !ok || it.K != "String" || it.T != want {
+				env.Violatef("C02/code-element/wrong-code", "%s reads as %s, its FHIR code is %q", d, trunc(r.Short(), 80), want)
+				continue
+			}
+			r2 := fx.Evaluate(env, exEq, nil, evalopts.EnvVariable("x", m.Interface()), evalopts.EnvVariable("c", system.String(want)))
+			if r2.Bool3() != "true" {
+				env.Violatef("C02/code-element/not-equal-to-its-code", "%s = %q is %s", d, want, trunc(r2.Short(), 80))
+			}
+			env.Distinct("code|" + string(md.FullName()) + "|" + string(ev.Name()))
+		}
+	}
+}
+
+func replayC02Codes(env *core.Env, a []json.RawMessage) {
+	var rev bool
+	json.Unmarshal(a[0], &rev)
+	c02Codes(env, rev)
+}
+
 // backboneGroups maps the JSON name of a backbone element (a message nested in its resource's message)
 // to the resource types that have one of that name, for names shared by at least two types.
 func backboneGroups() (names []string, groups map[string][]string) {
@@ -193,7 +284,15 @@ func backboneGroups() (names []string, groups map[string][]string) {
 // different message types that share element names.
 func c02Mixed(env *core.Env, group string, tns []string, seed uint64, viaContained bool) {
 	defer env.In("mixed", group, tns, seed, viaContained)()
+	res, tn, _ := buildMixed(group, tns, seed, viaContained)
+	env.Cover("mixed-type-container")
+	c02Walk(env, tn, res, seed, 2500)
+}
+
+// buildMixed builds the mixed-type container and also returns the member resources.
+func buildMixed(group string, tns []string, seed uint64, viaContained bool) (fhir.Resource, string, []fhir.Resource) {
 	var crs []*bcrpb.ContainedResource
+	var members []fhir.Resource
 	for i, tn := range tns {
 		md := gen.ResourceTypeByName(tn)
 		g := gen.NewResGen(core.NewRng(seed+uint64(i), "mixed", tn), false)
@@ -225,6 +324,7 @@ func c02Mixed(env *core.Env, group string, tns []string, seed uint64, viaContain
 		cr := &bcrpb.ContainedResource{}
 		cr.ProtoReflect().Set(gen.ContainedFieldFor(md), protoreflect.ValueOfMessage(rm))
 		crs = append(crs, cr)
+		members = append(members, r)
 	}
 	var res fhir.Resource
 	tn := "Bundle"
@@ -246,8 +346,7 @@ func c02Mixed(env *core.Env, group string, tns []string, seed uint64, viaContain
 		}
 		res = b
 	}
-	env.Cover("mixed-type-container")
-	c02Walk(env, tn, res, seed, 2500)
+	return res, tn, members
 }
 
 func c02Walk(env *core.Env, tn string, res fhir.Resource, seed uint64, maxPaths int) {
